@@ -306,7 +306,8 @@ def file_case(case, ctx):
         if "Z" not in alphabet:
             alphabet.append("Z")
         samples = rng.integers(0, 2, size=(N, n))
-        bases = gen.random_bases(rng, N, n, alphabet="".join(alphabet), p_z=0.35)
+        bases = gen.random_bases(rng, N, n, alphabet=list(alphabet), p_z=0.35)  # a list: labels may have several characters
+        ctx.seen("longest_basis_label", int(max(len(a_) for a_ in alphabet)))
         zmode = i % 5
         if zmode in (1, 2, 3) and N >= 2 and n >= 2 and len(alphabet) > 1:
             # patterns of reference-basis rows: none / exactly one / all but one (counts 0 and 1 are where index tricks slip)
